@@ -1,6 +1,5 @@
 (* C09, data-file level: the text of a block (strip vs. cut at the first unused-space byte), rows and region
-   geometry (VP/JC -> region inside the safe area, over Q), and the comparison of subtitle numbers (identity vs.
-   value).  Each statement that is false of the faithful model has its refutation next to the partial lemma. *)
+   geometry (VP/JC -> region inside the safe area, over Q), subtitle numbers, grouping and the per-block steps.  Each statement that is false of the faithful model has its refutation next to the partial lemma. *)
 From Coq Require Import QArith Lia.
 From TT Require Import Base.Prelude Gen.StlTables Model.TimeCode Model.Iso6937 Model.StlTf Model.StlDatafile Model.StlTriggers Spec.Ebu3264Spec.
 Open Scope Z_scope.
